@@ -21,7 +21,10 @@ for c in checks:
     prev = meta['first_run']['ran'].get(c, {})
     res[c] = {'suite': prev.get('suite', 'not re-run (see first_run of the property\'s own check)'), 'check_exit': 1 if det else (0 if 'CHECK exit=0' in o else 2),
               'signatures': sigs[:6], 'tail': [l[:600] for l in o.strip().splitlines()[-4:]]}
-meta['ran'] = res
+# checks that were not re-run keep their last recorded result
+merged = dict(meta['ran'])
+merged.update(res)
+meta['ran'] = merged
 meta['rechecked_at'] = time.strftime('%Y-%m-%dT%H:%M:%SZ', time.gmtime())
 json.dump(meta, open(f'{dst}/meta.json', 'w'), indent=1)
 print(ID, {k: (v['check_exit'], v['signatures'][:2]) for k, v in res.items()})
